@@ -16,6 +16,7 @@ EXPLANATION = (
     '(R8) Gate::path_iter hands out the unbounded hop-by-hop walker (no take/filter, no hop counter). '
     "(R4 also: the already-connected return writes nothing; R9, shared with C07.R4: the idle path of a hop's channel.) "
     "(R10) the channel a hop is charged on is the channel of the connection the walk takes. "
+    '(R11, shared with C09.R2) a message in transit is dropped only for the module whose gate it is at; R12, shared with C09.R3: a message sent by the handler that requests a shutdown still leaves. '
     "Decides these necessary conditions only; not arrival-time sums over all chain shapes.")
 ASSUMPTIONS = ["gates are only wired through Gate::connect (slot table private)"]
 
